@@ -1,5 +1,9 @@
 import Qryn.Proofs.LogQLPlan
 import Qryn.Proofs.LogQLPlanX
+import Qryn.Proofs.PushdownX
+import Qryn.Proofs.SpecReadingX
+import Qryn.Gen.InternalPlanner
+import Qryn.LogQL.GrammarC07
 /-! # C07 — the SQL generated for a LogQL log query selects exactly the matching lines
 
 Model: `LogQL.planLog` (tied byte-for-byte to the real planner's SQL text by the `text` correspondence
@@ -109,6 +113,128 @@ theorem extracted_overrides (a b : Labels) (k v : Bytes) (h : (k, v) ∈ b) (hu 
   · have : b.any (fun q => q.1 == k) = true := List.any_eq_true.mpr ⟨(k, v), h, by simp⟩
     simp [this] at hn
   · exact hu v' hm
+
+/-! ## the push-down of label filters to the stored labels (`analyzeScript` → `planTS`)
+
+`planLogX` calls `LogQL.analyze` = the model of `analyzeScript`'s marking loop (`simpleOps`), of `labelsJoinIdx` and of
+what `planTS` / `planSpl` do with them, built from the tables `Gen.C07Analyze` regenerated from analyze.go / planner.go. -/
+
+/-- **pushdown_exact.** The exact stopping rule: stage `i` is marked as decidable on the stored labels iff it is a label
+    filter — of any shape: one comparison, an and/or chain, parenthesised groups at any depth — and no stage before it
+    rewrites the labels (`| json …`, `| regexp`, `| drop`). -/
+theorem pushdown_exact (ss : List StageX) (i : Nat) :
+    (simpleOps ss)[i]? = some true ↔ (∃ lc, ss[i]? = some (.fl (.label lc))) ∧ changersOf (ss.take i) = [] :=
+  simpleOps_spec ss i
+
+/-- **pushdown_sound.** For ALL pipelines: every filter the analysis pushes down evaluates the same on the stored labels
+    as on the labels an entry carries when it reaches the filter's position — whatever the line, the stored labels and the
+    JSON / RE2 oracles. (This is the lemma behind `plan_correct_ext`: it is why the label filters `planTS` moves into the
+    fingerprint selection may be decided on `time_series.labels`.) -/
+theorem pushdown_sound (o : Oracles) (ss : List StageX) (i : Nat) (lc : LabelCond) (line : Bytes) (stored : Labels)
+    (_hs : ss[i]? = some (.fl (.label lc))) (hp : (simpleOps ss)[i]? = some true) :
+    labelCondHolds o (labelsAt o line stored ss i) lc = labelCondHolds o stored lc := by
+  rw [labelsAt_simple o line stored ss i hp]
+
+/-- **pushdown_sound_criterion.** What ANY push-down rule needs: a filter that reads no label an earlier stage may set
+    (json parameter, named group) or remove (drop) — looking at every comparison of the filter, inside parentheses too —
+    evaluates the same on the stored labels as at its position. The pinned rule is the instance "no earlier stage
+    rewrites anything" (`pushdown_rule_independent`). -/
+theorem pushdown_sound_criterion (o : Oracles) (ss : List StageX) (i : Nat) (lc : LabelCond) (line : Bytes) (stored : Labels)
+    (h : independent (changersOf (ss.take i)) lc = true) :
+    labelCondHolds o (labelsAt o line stored ss i) lc = labelCondHolds o stored lc :=
+  independent_sound o line _ lc stored h
+
+theorem pushdown_rule_independent (ss : List StageX) (i : Nat) (lc : LabelCond) (hp : (simpleOps ss)[i]? = some true) :
+    independent (changersOf (ss.take i)) lc = true :=
+  simple_independent ss i lc hp
+
+/-- **pushdown_is_the_specified_split.** What the plan does with the analysis — label filters wrapped around the fingerprint
+    selection, filters planned on `main`, stages planned on the join — is the split the specification `evalLogX` reads the
+    pipeline with: pushed down = exactly the label filters before the first label-rewriting stage. -/
+theorem pushdown_is_the_specified_split (ss : List StageX) :
+    analyze ss = ⟨labelConds ⟨[], (splitPre ss).1⟩, (splitPre ss).1, (splitPre ss).2⟩ :=
+  analyze_eq_splitPre ss
+
+/-- `{…} | drop x | (x="1")` -/
+def pastDropWitness : List PStage := [.ch (.drop [([120], [])]), .label (.complex (.simple (.str "x" .eq [49])))]
+
+/-- **pushdown_past_drop_counterexample** (kernel-checked). The rule "keep pushing down after `| drop` unless an
+    UNPARENTHESISED comparison reads a dropped label" is not sound: in `{…} | drop x | (x="1")` it marks the filter (its
+    only comparison is inside parentheses), yet on a stream stored with `x="1"` the filter is true of the stored labels and
+    false of the labels at its position (no `x` after the drop). -/
+theorem pushdown_past_drop_counterexample :
+    ∃ (ss : List PStage) (i : Nat) (f : PFilter) (stored : Labels), ss[i]? = some (.label f) ∧
+      (simpleOpsPastDrop [] ss)[i]? = some true ∧
+      ∀ (o : Oracles) (line : Bytes),
+        labelCondHolds o (labelsAt o line stored (ss.map PStage.erase) i) f.cond ≠ labelCondHolds o stored f.cond := by
+  refine ⟨pastDropWitness, 1, .complex (.simple (.str "x" .eq [49])), [([120], [49])], rfl, by decide, ?_⟩
+  intro o line
+  simp [pastDropWitness, labelsAt, PStage.erase, changersOf, applyChanger, dropKeeps, labelCondHolds, labelValue, x_bytes,
+    List.lookup, PFilter.cond]
+
+/-- the same rule does stop at the unparenthesised `{…} | drop x | x="1"`; and the witness fails the criterion -/
+example : (simpleOpsPastDrop [] [.ch (.drop [([120], [])]), .label (.simple (.str "x" .eq [49]))])[1]? = some false := by
+  simp [simpleOpsPastDrop, PFilter.readsUnparenthesised, LabelCond.reads, x_bytes]
+example : independent (changersOf ((pastDropWitness.map PStage.erase).take 1)) (.str "x" .eq [49]) = false := by
+  simp [pastDropWitness, PStage.erase, changersOf, independent, Changer.writes, LabelCond.reads, x_bytes]
+/-- the pinned rule on the witness: nothing after the drop is marked -/
+example : simpleOps (pastDropWitness.map PStage.erase) = [false, false] := by decide
+
+/-- **analysis_tables_pinned.** The regenerated tables of analyze.go / planner.go the model is built from say what the
+    hand-written parts of the model assume: `changesLabels` is "parser or drop" (`groupRuns`' two kinds of runs), a
+    request is renewed exactly where that changes from one stage to the next, from `labelsJoinIdx` on; `planSpl` has no
+    branch for `| label_format` (and no default branch), so the stage must never reach the ClickHouse planner — and
+    `GetBreakpoint` hands the script over at it, at `| line_format`, at `| json` without parameters and at `| logfmt`. -/
+theorem analysis_tables_pinned :
+    (∀ s : StageX, Gen.C07Analyze.changesLabels.contains s.kind = (match s with | .ch _ => true | .fl _ => false)) ∧
+    Gen.C07Analyze.renewRule =
+      "i < len(pipeline)-1 && p.labelsJoinIdx != -1 && i >= p.labelsJoinIdx && changesLabels(&pipeline[i]) != changesLabels(&pipeline[i+1])" ∧
+    (Gen.C07Analyze.dispatch.lookup "LabelFormat" = none) ∧
+    (∀ s : StageX, (Gen.C07Analyze.dispatch.lookup s.kind).isSome = true) ∧
+    Gen.InternalPlanner.breakConds.drop 1 =
+      ["ppl.Parser != nil && ((ppl.Parser.Fn == \"json\" && len(ppl.Parser.ParserParams) == 0) || ppl.Parser.Fn == \"logfmt\")",
+       "ppl.LineFormat != nil", "ppl.LabelFormat != nil"] := by
+  refine ⟨?_, rfl, by decide, ?_, rfl⟩
+  · intro s; cases s with
+    | fl f => cases f <;> rfl
+    | ch c => cases c <;> rfl
+  · intro s; cases s with
+    | fl f => cases f <;> rfl
+    | ch c => cases c <;> rfl
+
+/-! ### the specification read stage by stage
+`evalLogX` reads the filters before the first label-rewriting stage the way the plan decides them — through the index and the
+series table. On a series table that gives every stream one label set this is the uniform reading `evalInPlace`: the
+selector's entries, each carrying its stream's labels, go through ALL stages in order. -/
+
+/-- **pre_filters_read_in_place.** If every series row of a stream carries the same label set `L fp` and every stream the
+    selector picks has an admissible row, then the entries the specification admits for the filters `pre` placed before the
+    first label-rewriting stage are exactly the selector's entries filtered in place by `pre`, each filter judging the
+    entry's own labels and line. (Spec-level counterpart of `pushdown_sound`.) -/
+theorem pre_filters_read_in_place (o : Oracles) (c : Ctx) (d : LokiDb) (ms : List Matcher) (L : Int → Labels)
+    (H : SeriesConsistent o c d ms L) (pre : List Stage) :
+    entriesAtJoin o c d ⟨ms, pre⟩ = stagesX o (pre.map .fl) (entriesAtJoin o c d ⟨ms, []⟩) :=
+  LogQL.pre_filters_read_in_place o c d ms L H pre
+
+/-- **plan_correct_in_place.** For a pipeline with at least one label-rewriting stage, on such a series table: the statement
+    planned for ClickHouse returns what one gets by passing the selector's entries through every stage of the pipeline in
+    order — no split of the pipeline appears in this reading. -/
+theorem plan_correct_in_place (o : Oracles) (c : Ctx) (hn : c.namesOk) (d : LokiDb) (q : LogQueryX) (fin : Bool)
+    (hm : q.matchers.length ≤ 63) (L : Int → Labels) (H : SeriesConsistent o c d q.matchers L)
+    (hch : changersOf q.stages ≠ []) :
+    evalSelX o (d.toDb c) (planLogX c fin q) = evalInPlace o c fin d q := by
+  rw [planLogX_correct o c hn d q fin hm, evalLogX_reads_in_place o c fin d q L H hch]
+
+/-- the hypothesis is satisfiable (a series table with one row; no index row, so the selector picks nothing) -/
+example (o : Oracles) (c : Ctx) (ms : List Matcher) :
+    SeriesConsistent o c ⟨[], [⟨[], 1, [123, 125], 1⟩], []⟩ ms (fun _ => o.jsonLabels [123, 125]) :=
+  ⟨by intro t ht; simp at ht; subst ht; rfl, by intro fp h; simp [streamSelected] at h⟩
+
+/-- **grammar_classified.** Every production of the LogQL log-query grammar as it is in logql_parser/model_v2.go now
+    (`Gen.C07Grammar`, regenerated from the participle tags) is classified — modelled, handed over, or outside with the
+    reason — and nothing else is: a production the grammar gains (a new stage, operator, token form) or loses is an open
+    obligation until the model, the generator of the streams and this table say what to make of it. -/
+theorem grammar_classified : Gen.C07Grammar.productions = GrammarC07.classTable.map (·.1) := by decide +kernel
 
 /-! non-vacuity: a context with distinct table names; a query with all stage kinds; the hand-over -/
 example : ∃ c : Ctx, c.namesOk := ⟨⟨0, 10, 5, false, 1, false, "gin", "smp", "ts", "ts_dist"⟩, by simp [Ctx.namesOk]⟩
